@@ -1,6 +1,6 @@
 (** C17 — sync sessions are sound and terminate. *)
 From Aranya Require Import base.Tactics gen.GenSync model.Dag model.TravQueue model.Wire model.SyncStore model.SyncResp
-  proofs.SyncStoreProofs proofs.SyncRespProofs proofs.SyncSessionProofs proofs.SyncC17.
+  proofs.SyncStoreProofs proofs.SyncRespProofs proofs.SyncSessionProofs proofs.SyncC17 proofs.SyncCoverProofs proofs.SyncParentsProofs.
 From Coq Require Import Sorted.
 Local Open Scope N_scope.
 
@@ -53,3 +53,25 @@ Check session_terminates :
     let '(outs, rf) := run_polls dbg p (after_request sid g mb cmds) tlens in
     oks outs = ideal sid (S total) 0 (plan st ts) /\ length (oks outs) = polls /\ r_state rf = RIdle /\ r_ready rf = false.
 Print Assumptions session_terminates.
+
+(** Parents first.  Every entry of the plan starts at the first command of its
+    segment or right above a command the requester is known to hold (an
+    ancestor-or-equal of an advertised command the responder stores); the
+    parents of a segment sent from its first command are known to the
+    requester or are sent by an entry that sorts strictly earlier.  Entries
+    are sent whole and in order ([resume_exact]) and commands inside a segment
+    form a chain, so every command's parents precede it in the stream or lie
+    in the closure of what the requester advertised. *)
+Theorem parents_first : parents_first_stmt.
+Proof. exact parents_first_proof. Qed.
+Check parents_first :
+  forall (dbg : bool) (st : store) (cmds : list addr) (ts : list loc),
+  wf_store st -> find_needed_segments dbg st cmds = ROk ts ->
+  forall x, In x ts ->
+    valid_loc st x /\
+    (forall sg, find_seg (st_segs st) (lseg x) = Some sg ->
+       lmc x = g_first sg \/ covered_by st cmds (L (lmc x - 1) (lseg x))) /\
+    (forall sg, find_seg (st_segs st) (lseg x) = Some sg -> lmc x = g_first sg ->
+       forall p, In p (prior_list (g_prior sg)) ->
+         covered_by st cmds p \/ exists y, In y ts /\ lseg y = lseg p /\ lmc y <= lmc p /\ lmc y < lmc x).
+Print Assumptions parents_first.
